@@ -127,6 +127,10 @@ func (e *c11Env) progress(after string) *vVerdict {
 	if e.mon == nil || !e.running {
 		return nil
 	}
+	if vMonQuiet {
+		time.Sleep(3 * time.Millisecond)
+		return nil
+	}
 	start := atomic.LoadInt64(&e.mon.processed)
 	deadline := time.Now().Add(8 * time.Second)
 	for time.Now().Before(deadline) {
